@@ -100,8 +100,12 @@ func (s *SuffrageStateBuilder) Build(
 				return lastheight, nil, nil, e.Wrap(err)
 			}
 
+			// NOTE buildBatch already fetched and proved the proof of the last suffrage height
+			if !ps[len(ps)-1].State().Hash().Equal(proof.State().Hash()) {
+				return lastheight, nil, nil, e.Errorf("last suffrage proof does not match with the fetched one")
+			}
+
 			proofs = ps
-			proofs = append(proofs, proof)
 		}
 	}
 
@@ -123,7 +127,7 @@ func (s *SuffrageStateBuilder) buildBatch(
 
 	newprev := localstate
 	var previous base.State
-	var proofs []base.SuffrageProof
+	var proofs, proved []base.SuffrageProof
 	var provelock sync.Mutex
 
 	if err := util.BatchWork(
@@ -132,6 +136,7 @@ func (s *SuffrageStateBuilder) buildBatch(
 		s.batchlimit,
 		func(_ context.Context, last uint64) error {
 			previous = newprev
+			proved = append(proved, proofs...)
 
 			switch r := (last + 1) % uint64(s.batchlimit); {
 			case r == 0:
@@ -154,6 +159,10 @@ func (s *SuffrageStateBuilder) buildBatch(
 				return util.ErrNotFound.Errorf("suffrage proof not found, %d", height)
 			}
 
+			if h := proof.SuffrageHeight(); h != height {
+				return errors.Errorf("suffrage proof of height %d fetched for height %d", h, height)
+			}
+
 			return func() error {
 				provelock.Lock()
 				defer provelock.Unlock()
@@ -173,7 +182,7 @@ func (s *SuffrageStateBuilder) buildBatch(
 		return nil, e.Wrap(err)
 	}
 
-	return proofs, nil
+	return append(proved, proofs...), nil
 }
 
 func (*SuffrageStateBuilder) prove(
@@ -191,7 +200,7 @@ func (*SuffrageStateBuilder) prove(
 	height := proof.SuffrageHeight()
 
 	index := (height - prevheight - 1).Int64()
-	if index >= int64(len(proofs)) {
+	if index < 0 || index >= int64(len(proofs)) {
 		return errors.Errorf("wrong height")
 	}
 
